@@ -8,7 +8,7 @@ expr  : ["c", int|float] | ["r", kind, no] | ["v", name] | [op, e1, e2] | ["neg"
 cond  : [cmp, e1, e2] (cmp in == != < <= > >=) | ["and", c1, c2] | ["or", c1, c2] | ["not", c] | ["bit", e]  (truth of e)
 stmt  : ["set", target, expr] | ["iadd", target, expr] | ["isub", target, expr]
         | ["if", cond, [stmts], [else stmts] | None] | ["exit", code]
-target: ["v", name] | ["r", kind, no]
+target: ["v", name] | ["r", kind, no] | ["p", name, no] (iadd / isub only: an array-map variable through a pointer register)
 """
 import operator
 import struct
@@ -163,6 +163,15 @@ def run_stmts(e, stmts):
                 cur = getattr(e, tgt[1])             # Python's own semantics of  e.v += val
                 cur = operator.iadd(cur, val) if t == "iadd" else operator.isub(cur, val)
                 setattr(e, tgt[1], cur)
+            elif tgt[0] == "p":
+                # the array-map variable tgt[1] reached through a pointer in register tgt[2]:  e.m<fmt>[e.rN + offset] += val
+                d = type(e).__dict__[tgt[1]]
+                e.r[tgt[2]] = e.r[d.base_register]
+                mm = getattr(e, "m" + d.fmt)
+                key = e.r[tgt[2]] + e.__dict__[tgt[1]]
+                cur = mm[key]
+                cur = operator.iadd(cur, val) if t == "iadd" else operator.isub(cur, val)
+                mm[key] = cur
             else:
                 r = get_reg(e, tgt[1], tgt[2])
                 assign(e, tgt, r + val if t == "iadd" else r - val)
